@@ -59,6 +59,9 @@ func runErrFlow(w *World, r *Report, rule string, srcs *errSourceSet, scope func
 			if !ok {
 				return
 			}
+			if svcSiteFilter != nil && !svcSiteFilter(in) {
+				return
+			}
 			call, isCall := in.(*ssa.Call)
 			var origin string
 			if isCall {
